@@ -518,6 +518,12 @@ func checkJar(c JarCase) vk.Verdict {
 			app := fiber.New()
 			app.Get("/*", func(ctx fiber.Ctx) error {
 				for _, jc := range op.Cookies {
+					switch jc.Exp {
+					case "maxage0", "maxage-1", "maxagefar":
+						ma := map[string]string{"maxage0": "0", "maxage-1": "-1", "maxagefar": "3600"}[jc.Exp]
+						ctx.Response().Header.Add("Set-Cookie", fmt.Sprintf("%s=%s; Max-Age=%s; Path=%s", jc.Key, jc.Val, ma, keyPath[jc.Key])) // one header line per cookie
+						continue
+					}
 					ck := mkCookie(jc)
 					ctx.Response().Header.SetCookie(ck)
 					fasthttp.ReleaseCookie(ck)
@@ -535,6 +541,12 @@ func checkJar(c JarCase) vk.Verdict {
 			resp.Close()
 			_ = app.Shutdown()
 			for _, jc := range op.Cookies {
+				switch jc.Exp {
+				case "maxage0", "maxage-1":
+					jc.Exp = "past" // the server expired the cookie
+				case "maxagefar":
+					jc.Exp = "far"
+				}
 				if jc.Exp == "short" {
 					// an expires attribute has one second resolution: a lifetime of a few milliseconds may already be over
 					// when the client parses it, so such a cookie may or may not be stored
@@ -682,6 +694,10 @@ func genJar(t *rapid.T) JarCase {
 				jc := JCookie{Key: rapid.SampledFrom(keys).Draw(t, "key"), Val: fmt.Sprintf("v%d_%d", i, j), Exp: rapid.SampledFrom([]string{"session", "session", "far", "short", "past"}).Draw(t, "exp")}
 				if op.Kind == "set" && jc.Exp == "past" {
 					jc.Exp = "session" // Set() of an already expired cookie is not a deletion API
+				}
+				if op.Kind == "parse" && rapid.IntRange(0, 3).Draw(t, "maxage") == 0 {
+					// the other way servers spell lifetime and deletion (RFC 6265 4.1.2.2; it takes precedence over Expires)
+					jc.Exp = rapid.SampledFrom([]string{"maxage0", "maxage0", "maxagefar"}).Draw(t, "maxagekind")
 				}
 				op.Cookies = append(op.Cookies, jc)
 			}
